@@ -133,11 +133,11 @@ PROPS = {
         assumptions=['A1', 'A5', 'A7', 'VSTD', 'TOOLS'],
     ),
     'C14': dict(
-        title='Decoding untrusted registry bytes never panics and is canonical (SCALE decode and resolve clauses; JSON and memory not covered)',
+        title='Decoding untrusted registry bytes never panics and is canonical (SCALE decode and resolve clauses proved; JSON clause bounded only; memory not covered)',
         level='proof',
         technique='Verus: total-function contract on PortableRegistry::resolve; canonicity theorem and panic-freedom of the derive-generated decoders (no precondition, every callee precondition discharged)',
         level_text='resolve(id) is proved, for EVERY registry value and every u32, to return Some(entry at position id) when id is in range and None otherwise; it has no precondition, so it cannot panic. The 17 derive-generated decode functions are verified without any precondition on the input: Verus discharges every callee precondition and arithmetic check in them, so the crate\'s own decoding code cannot panic on any byte string and returns Ok or Err. theorem_canonical: whatever decodes successfully re-encodes to exactly the bytes that were consumed.',
-        level_note='NOT covered: JSON deserialisation (serde), memory proportional to the input, and panic-freedom / totality of the dependency\'s primitive decoders (Vec, String, Compact ... are assumed to satisfy the Decode contract of the model, see C06). Stack depth is not considered.',
+        level_note='JSON deserialisation (serde-derive visitors driving serde_json) is NOT under contract: bounded native leg only (about 100k corrupted JSON texts: no panic, accepted texts are registries). NOT covered at all: memory proportional to the input, and panic-freedom / totality of the dependency\'s primitive decoders (Vec, String, Compact ... are assumed to satisfy the Decode contract of the model, see C06). Stack depth is not considered.',
         verus=[('portable', ['PortableRegistry::resolve']), ('codec', ['crate::scale::Decode for *::decode', 'tmpl::lemma_*', 'tmpl::theorem_canonical'])],
         kani_quick=[], kani_thorough=[],
         assumptions=['CODEC', 'VSTD', 'TOOLS'],
